@@ -12,6 +12,7 @@ from nrel.hive.reporting.vehicle_event_ops import (
 )
 from nrel.hive.state.simulation_state import simulation_state_ops
 from nrel.hive.state.vehicle_state.out_of_service import OutOfService
+from nrel.hive.state.vehicle_state.vehicle_state_type import VehicleStateType
 from nrel.hive.util.exception import SimulationStateError
 from nrel.hive.util.typealiases import StationId, ChargerId
 from nrel.hive.util.typealiases import VehicleId
@@ -19,6 +20,39 @@ from nrel.hive.util.typealiases import VehicleId
 if TYPE_CHECKING:
     from nrel.hive.state.simulation_state.simulation_state import SimulationState
     from nrel.hive.runner.environment import Environment
+
+
+def jumps_the_queue(
+    sim: SimulationState, vehicle: Vehicle, station_id: StationId, charger_id: ChargerId
+) -> bool:
+    """
+    true if this vehicle is waiting in the queue for this station and charger type and some other
+    vehicle joined that queue earlier (ties broken by vehicle id, as the queue is served): such a
+    vehicle is not plugged in - at the station or through a base the station serves - past them
+
+    :param sim: the simulation state
+    :param vehicle: the vehicle about to be plugged in
+    :param station_id: the station whose plug it would take
+    :param charger_id: the charger type it would take
+    :return: whether plugging it in now would jump the queue
+    """
+
+    def _queueing_here(v: Vehicle) -> bool:
+        state = v.vehicle_state
+        return (
+            state.vehicle_state_type == VehicleStateType.CHARGE_QUEUEING
+            and getattr(state, "station_id", None) == station_id
+            and getattr(state, "charger_id", None) == charger_id
+        )
+
+    if not _queueing_here(vehicle):
+        return False
+    my_turn = (getattr(vehicle.vehicle_state, "enqueue_time"), vehicle.id)
+    ahead = sim.get_vehicles(
+        filter_function=lambda v: _queueing_here(v)
+        and (getattr(v.vehicle_state, "enqueue_time"), v.id) < my_turn
+    )
+    return len(ahead) > 0
 
 
 def charge(
